@@ -139,6 +139,19 @@ def bound_variants(shape: Tuple[int, ...], dtype: str) -> List[Tuple[str, Any, A
     lo, hi, hi2, lo2 = s["lo"], s["hi"], s["hi2"], s["lo2"]
     size = int(np.prod(shape)) if shape else 1
     out: List[Tuple[str, Any, Any]] = [("s0", lo, hi), ("s1", lo, hi2), ("s2", lo2, hi), ("ext", s["ext"][0], s["ext"][1])]
+    dt = np.dtype(dtype)
+    if shape in ((), (2,)) and dt.kind != "b":
+        # an all-negative range (signed dtypes): a generated / default value must not be assumed to be 0 or >= 0
+        if dt.kind in "if":
+            out.append(("neg", -3, -1) if dt.kind == "i" else ("neg", -2.5, -0.5))
+        # adjacent representable bounds at a magnitude where a tolerance-based comparison would merge them
+        if dt.kind in "iu":
+            top = int(min(np.iinfo(dt).max - 1, 2 ** 20))
+            out += [("n0", lo, top), ("n1", lo, top + 1)]
+        else:
+            up = float(np.nextafter(dt.type(hi), dt.type(np.inf)))
+            down = float(np.nextafter(dt.type(lo), dt.type(-np.inf)))
+            out += [("n1", lo, up), ("n2", down, hi)]
     if len(shape) >= 1:
         out += [("f0", _full(shape, lo), _full(shape, hi)), ("m0", lo, _full(shape, hi))]
     if len(shape) >= 1 and size >= 2:
